@@ -439,8 +439,47 @@ def incremental_edits(rnd: random.Random, n_edits: int = 6):
         ws.close()
 
 
+# one procedure per spelling of a construct: every one must be listed once with its own lines, so a construct that is
+# opened twice or not closed shows in the procedure that contains it and in all that follow
+CONSTRUCT_BODIES = [
+    ["where (a > 0)", "  a = 1", "elsewhere (a < 0)", "  a = -1", "elsewhere", "  a = 0", "end where"],
+    ["where (a > 0)", "  a = 1", "else where (a < 0)", "  a = -1", "end where"],
+    ["WHERE(a>0)", "  a = 1", "ELSEWHERE(a<0)", "  a = -1", "ENDWHERE"],
+    ["msk: where (a > 0)", "  a = 1", "elsewhere (a < 0) msk", "  a = 2", "end where msk"],
+    ["where (a > 0) a = 1", "where (a > 0)", "  where (a > 1) a = 2", "end where"],
+    ["if (nowhere(a) > 0) then", "  a = 1", "else if (nowhere(a) < 0) then", "  a = 2", "elseif(a(1)==0)then", "  a = 3", "else", "  a = 4", "endif"],
+    ["select case (a(1))", "case (1)", "  a = 1", "case default", "  a = 0", "end select"],
+    ["outer: do i = 1, 3", "  inner: do", "    if (i > 1) exit inner", "    cycle outer", "  end do inner", "end do outer"],
+    ["forall (i = 1:3) a(i) = i", "forall (i = 1:3)", "  a(i) = 0", "end forall"],
+    ["associate (b => a(1), c => nowhere(a))", "  a(2) = b + c", "end associate", "block", "  integer :: blk", "  blk = 1", "end block"],
+    ["do 10 i = 1, 3", "do 10 j = 1, 3", "10 a(i) = j", "critical", "  a(1) = 1", "end critical"],
+]
+
+
+def construct_program():
+    lines = ["module sm_constructs", "  implicit none", "contains",
+             "  integer function nowhere(v)", "    integer :: v(3)", "    nowhere = v(1)", "  end function nowhere"]
+    expect = [{"name": "nowhere", "container": "sm_constructs", "sline": 4, "eline": 7}]
+    for k, body in enumerate(CONSTRUCT_BODIES):
+        name = f"sm_c{k}"
+        start = len(lines) + 1
+        lines += [f"  subroutine {name}(a)", "    integer :: a(3), i, j"] + ["    " + b for b in body] + [f"  end subroutine {name}"]
+        expect.append({"name": name, "container": "sm_constructs", "sline": start, "eline": len(lines)})
+    lines.append("end module sm_constructs")
+    expect.append({"name": "sm_constructs", "container": None, "sline": 1, "eline": len(lines)})
+    lines += ["subroutine sm_after()", "end subroutine sm_after"]
+    expect.append({"name": "sm_after", "container": None, "sline": len(lines) - 1, "eline": len(lines)})
+    return "\n".join(lines) + "\n", expect
+
+
 def run(tier: str, seed: int):
     n = 1
+    text, expect = construct_program()
+    w = check_names_and_ranges(text, expect, "constructs.f90")
+    n += 1
+    if w:
+        w["program"] = text
+        return w, n
     for k in range(12 if tier == "thorough" else 4):
         w = incremental_edits(random.Random(seed * 557 + k))
         n += 1
